@@ -62,7 +62,8 @@ CLAIMED["C19"] = dict(
          "to the machine's IO sub-steps; scripted devices are run on every engine and storage mode and TLC judges the value of every device "
          "read, the outcome and the final memory (Trace_FJMachineDev). FJScreen.tla models the screen's command decoder one byte per action; "
          "TLC explores all sequences of <=3 commands over an alphabet of valid and malformed commands (every prefix = truncation) and the real "
-         "InMemoryScreen is compared with the specification's state after every byte at w=16/32/64, attached and unattached. End to end: programs "
+         "InMemoryScreen is compared with the specification's state after every byte at w=16/32/64, attached and unattached; streams also change "
+         "the program memory BETWEEN commands that read the same place (the device must read memory when the command arrives). End to end: programs "
          "whose ops hold the packed bytes and whose code prints a command stream run with the real screen as IO device on 8 engine configurations; "
          "the screen must equal FJScreen's state for that stream and the run itself is judged by Trace_FJMachine.",
     note="Trusted: FJMachineDev.tla / FJScreen.tla as transcriptions of the documented layouts; TLC; the harness devices. Bounded: device "
@@ -197,7 +198,7 @@ CLAIMED["C20"] = dict(
          "(with -o); for the selected combinations and programs the harness runs `fj ... -o`, `fj --asm -o` + `fj --run` (subprocesses) and "
          "flipjump.assemble/run (one long-lived interpreter), records width/version header fields and digest of each .fjm, program output and "
          "termination, and TLC judges every record (Trace_FJCli): header = Effective, byte-identical files across routes, equal runs; the one-call "
-         "convenience route flipjump.assemble_and_run must behave like assemble + run.",
+         "convenience route flipjump.assemble_and_run must behave like assemble + run. Programs include a two-file program whose file order is not alphabetical.",
     note="The default version WITHOUT -o (documented: 1) is not observable from outside the command and is not judged. Quick runs a seeded subset "
          "of the 720 combinations (all -v rows always); thorough runs more.",
     ref="DESIGN.md section 2 (C20)",
